@@ -1,12 +1,19 @@
 #!/bin/bash
 # Runs the quick tier of the owning property against every seeded mutation (scratch copy of /repo), writes seeded/RESULTS.md
+# usage: tools/seed_sweep.sh [parallelism]
 cd /verif
+P=${1:-4}
+tmp=$(mktemp -d /tmp/pvm_sweep_XXXX)
+ls -d seeded/C*-mut*/ | xargs -P $P -I{} sh -c 'id=$(basename {}); p=${id%%-*}; /venv/bin/python tools/seedcheck.py {}patch.diff $p > '$tmp'/$id.txt 2>&1'
 out=seeded/RESULTS.md
 echo "| mutation | property | quick tier | mechanisms reported |" > $out
 echo "|---|---|---|---|" >> $out
 for d in seeded/C*-mut*/; do
   id=$(basename $d); p=${id%%-*}
-  r=$(/venv/bin/python tools/seedcheck.py $d/patch.diff $p 2>&1 | grep "^$p:")
-  echo "| $id | $p | $(echo $r | grep -o 'CAUGHT\|MISSED') | $(echo $r | sed 's/.*\[\(.*\)\]/\1/' | cut -c1-160) |" >> $out
-  echo "$id $r"
+  if grep -q neutralised_by $d/meta.json; then echo "| $id | $p | (neutralised by a later repair, see meta.json) |  |" >> $out; continue; fi
+  r=$(grep "^$p:" $tmp/$id.txt)
+  [ -z "$r" ] && r="$p: $(grep -m1 'PATCH FAILED' $tmp/$id.txt || echo 'no result')"
+  echo "| $id | $p | $(echo $r | grep -o 'CAUGHT\|MISSED\|PATCH FAILED') | $(echo $r | sed 's/.*\[\(.*\)\]/\1/' | cut -c1-160) |" >> $out
 done
+rm -rf $tmp
+grep -c CAUGHT $out; grep -v CAUGHT $out | tail -n +3
